@@ -48,7 +48,9 @@ func dumpMap(m *utreexo.MapPollard) string {
 
 type effOutcome struct{ v, w, dump string }
 
-func (o effOutcome) String() string { return "verification: " + o.v + ", writer: " + o.w + ", forest: " + o.dump }
+func (o effOutcome) String() string {
+	return "verification: " + o.v + ", writer: " + o.w + ", forest: " + o.dump
+}
 
 func errStr(e error) string {
 	if e != nil {
@@ -84,7 +86,7 @@ func (c *lockCase) effectSchedules(r *Runner, l *Line, n, prevN uint64, opHits i
 	if err != nil {
 		return false
 	}
-	for _, kind := range rememberKinds {
+	for _, kind := range append(append([]string{}, rememberKinds...), "Prune") {
 		for _, pruned := range []bool{false, true} {
 			if pruned && kind != "Verify/remember" {
 				continue
@@ -98,6 +100,9 @@ func (c *lockCase) effectSchedules(r *Runner, l *Line, n, prevN uint64, opHits i
 				if kind == "Verify/remember" {
 					return errStr(m.Verify([]Hash{x}, proof, true))
 				}
+				if kind == "Prune" {
+					return errStr(m.Prune([]Hash{x}))
+				}
 				return errStr(m.VerifyPartialProof(proof.Targets, []Hash{x}, nil, true))
 			}
 			doW := func(m *utreexo.MapPollard) string {
@@ -108,7 +113,9 @@ func (c *lockCase) effectSchedules(r *Runner, l *Line, n, prevN uint64, opHits i
 				return errStr(e)
 			}
 			fresh := func() *utreexo.MapPollard {
-				m, _, _, err := c.build(l.Hist)
+				cc := *c
+				cc.custom = kind == "Prune" // (suspended at its first look-up in the leaf index)
+				m, _, _, err := cc.build(l.Hist)
 				if err != nil {
 					return nil
 				}
@@ -157,7 +164,14 @@ func (c *lockCase) effectSchedules(r *Runner, l *Line, n, prevN uint64, opHits i
 					continue
 				}
 				var ctl *pauseCtl
-				if readerFirst {
+				if readerFirst && kind == "Prune" {
+					// no hook point: the call is suspended at its first look-up in the leaf index
+					ctl = &pauseCtl{paused: make(chan struct{}), release: make(chan struct{})}
+					if ol, ok := m.CachedLeaves.(*orderedLeaves); ok {
+						ol.paused, ol.release = ctl.paused, ctl.release
+						ol.armed.Store(true)
+					}
+				} else if readerFirst {
 					ctl = &pauseCtl{atSite: "q." + strings.TrimSuffix(kind, "/remember"), paused: make(chan struct{}), release: make(chan struct{})}
 				} else {
 					ctl = &pauseCtl{hit: 1, paused: make(chan struct{}), release: make(chan struct{})}
